@@ -421,12 +421,37 @@ Proof. reflexivity. Qed.
 Definition mdvd_raw (ns : list node) : str := concat (map mdvd_piece ns).
 Definition is_pipe (c : Z) : bool := c =? 124.
 
-Lemma split_mdvd_pieces : forall ns cur, texts_no 124 ns = true -> no_ch 124 cur = true ->
-  split_ch 124 (cur ++ mdvd_raw ns) = node_lines_aux ns cur.
+(* texts without CR / LF (what every reader produces) are written as they are *)
+Lemma mdvd_nl_id : forall s, no_ch 10 s = true -> no_ch 13 s = true -> mdvd_nl s = s.
 Proof.
-  unfold mdvd_raw. induction ns as [|n ns IH]; intros cur Ht Hc.
+  induction s as [|c t IH]; intros H10 H13; [reflexivity|].
+  cbn [no_ch forallb] in H10, H13. apply andb_true_iff in H10. apply andb_true_iff in H13.
+  destruct H10 as [A10 B10]. destruct H13 as [A13 B13].
+  cbn [mdvd_nl]. destruct (Z.eqb_spec c 13) as [->|_]; [discriminate|].
+  destruct (Z.eqb_spec c 10) as [->|_]; [discriminate|]. f_equal. apply IH; assumption.
+Qed.
+Definition mdvd_piece0 (n : node) : str :=
+  match n with NText s => s | NBreak => lit "|" | NStyle _ _ => [] end.
+Definition mdvd_raw0 (ns : list node) : str := concat (map mdvd_piece0 ns).
+Lemma mdvd_raw_plain : forall ns, texts_no 10 ns = true -> texts_no 13 ns = true -> mdvd_raw ns = mdvd_raw0 ns.
+Proof.
+  unfold mdvd_raw, mdvd_raw0. induction ns as [|n ns IH]; intros H10 H13; [reflexivity|].
+  destruct n as [s| |a b]; cbn [map concat mdvd_piece mdvd_piece0 texts_no] in *.
+  - apply andb_true_iff in H10. apply andb_true_iff in H13. destruct H10 as [A B]. destruct H13 as [C D].
+    rewrite (mdvd_nl_id s A C), (IH B D). reflexivity.
+  - rewrite (IH H10 H13). reflexivity.
+  - rewrite (IH H10 H13). reflexivity.
+Qed.
+(* a line end inside a text node becomes a line break, also at the edges of the node *)
+Example mdvd_nl_example : mdvd_nl (lit "a" ++ [13; 10] ++ lit "b" ++ [13] ++ lit "c" ++ [10]) = lit "a|b|c|".
+Proof. vm_compute. reflexivity. Qed.
+
+Lemma split_mdvd_pieces : forall ns cur, texts_no 124 ns = true -> no_ch 124 cur = true ->
+  split_ch 124 (cur ++ mdvd_raw0 ns) = node_lines_aux ns cur.
+Proof.
+  unfold mdvd_raw0. induction ns as [|n ns IH]; intros cur Ht Hc.
   - cbn [map concat node_lines_aux]. rewrite split_ch_app_nosep by exact Hc. cbn. rewrite app_nil_r. reflexivity.
-  - destruct n as [s| |st sty]; cbn [map concat mdvd_piece node_lines_aux texts_no] in *.
+  - destruct n as [s| |st sty]; cbn [map concat mdvd_piece0 node_lines_aux texts_no] in *.
     + apply andb_true_iff in Ht. destruct Ht as [Hs Ht]. rewrite app_assoc.
       apply IH; [exact Ht|]. rewrite no_ch_app, Hc, Hs. reflexivity.
     + rewrite split_ch_app_nosep by exact Hc. change (lit "|") with [124]. cbn [app].
@@ -434,10 +459,10 @@ Proof.
     + cbn [app]. apply IH; assumption.
 Qed.
 
-Lemma mdvd_pieces_no : forall x ns, x <> 124 -> texts_no x ns = true -> no_ch x (mdvd_raw ns) = true.
+Lemma mdvd_pieces_no : forall x ns, x <> 124 -> texts_no x ns = true -> no_ch x (mdvd_raw0 ns) = true.
 Proof.
-  intros x ns H. unfold mdvd_raw. induction ns as [|n ns IH]; intros Ht; [reflexivity|].
-  destruct n as [s| |a b]; cbn [map concat mdvd_piece texts_no] in *.
+  intros x ns H. unfold mdvd_raw0. induction ns as [|n ns IH]; intros Ht; [reflexivity|].
+  destruct n as [s| |a b]; cbn [map concat mdvd_piece0 texts_no] in *.
   - apply andb_true_iff in Ht. destruct Ht as [Hs Ht]. rewrite no_ch_app, Hs, (IH Ht). reflexivity.
   - rewrite no_ch_app, (IH Ht). change (no_ch x (lit "|")) with (negb (124 =? x) && true).
     destruct (Z.eqb_spec 124 x); [congruence|]. reflexivity.
@@ -503,12 +528,12 @@ Proof.
     + rewrite <- app_assoc. reflexivity.
 Qed.
 
-Theorem mdvd_content_shape : forall ns, texts_no 10 ns = true ->
+Theorem mdvd_content_shape : forall ns, texts_no 10 ns = true -> texts_no 13 ns = true ->
   mdvd_content ns = rstrip_by is_pipe (strip (mdvd_raw ns)) ++ [10].
 Proof.
-  intros ns H. unfold mdvd_content. fold (mdvd_raw ns).
+  intros ns H H13. unfold mdvd_content. fold (mdvd_raw ns).
   assert (Hy : no_ch 10 (strip (mdvd_raw ns)) = true).
-  { apply forallb_strip. apply mdvd_pieces_no; [discriminate|exact H]. }
+  { rewrite (mdvd_raw_plain ns H H13). apply forallb_strip. apply mdvd_pieces_no; [discriminate|exact H]. }
   rewrite (while_replace_noop _ [10; 10] [10]) by (apply no_double_nl; exact Hy).
   change (lit "|" ++ [10]) with pipe_nl. apply while_pipe_nl; [|exact Hy].
   rewrite app_length. cbn. lia.
@@ -525,10 +550,10 @@ Qed.
 Definition mdvd_text (ns : list node) : str := rstrip_by is_pipe (strip (mdvd_raw ns)).
 
 (* the text written for a caption, split at '|', carries the authored lines *)
-Theorem mdvd_text_lines : forall ns, texts_no 124 ns = true ->
+Theorem mdvd_text_lines : forall ns, texts_no 124 ns = true -> texts_no 10 ns = true -> texts_no 13 ns = true ->
   norm_lines (split_ch 124 (mdvd_text ns)) = norm_lines (node_lines ns).
 Proof.
-  intros ns H. unfold mdvd_text. rewrite norm_lines_split_rstrip_pipes, norm_lines_split_strip.
+  intros ns H H10 H13. unfold mdvd_text. rewrite (mdvd_raw_plain ns H10 H13). rewrite norm_lines_split_rstrip_pipes, norm_lines_split_strip.
   unfold node_lines. rewrite <- (split_mdvd_pieces ns [] H eq_refl). reflexivity.
 Qed.
 
@@ -571,10 +596,10 @@ Lemma mdvd_doc_lines : forall caps, Forall mdvd_cap_ok caps ->
   mdvd_doc caps = nl_terminated (map (fun c => fst c ++ mdvd_text (snd c)) caps).
 Proof.
   induction caps as [|c caps IH]; intros H; [reflexivity|].
-  inversion H as [|x l Hc Hrest]; subst. destruct Hc as (_ & H10 & _).
+  inversion H as [|x l Hc Hrest]; subst. destruct Hc as (_ & H10 & H13).
   unfold mdvd_doc in *. cbn [map concat]. rewrite (IH Hrest).
   change (nl_terminated (?x :: ?l)) with ((x ++ [10]) ++ nl_terminated l).
-  unfold nl_terminated. cbn [map concat]. rewrite mdvd_content_shape by exact H10.
+  unfold nl_terminated. cbn [map concat]. rewrite mdvd_content_shape by assumption.
   unfold mdvd_text. rewrite <- !app_assoc. reflexivity.
 Qed.
 
@@ -596,7 +621,7 @@ Proof.
   unfold mdvd_prefix_of. rewrite !no_eol_app, (digits_no_eol a Ha), (digits_no_eol b Hb).
   change (no_eol [123]) with true. change (no_eol [125]) with true. cbn [andb].
   assert (G : forall x, x <> 124 -> texts_no x ns = true -> no_ch x (mdvd_text ns) = true).
-  { intros x Hx Ht. unfold mdvd_text, no_ch. apply forallb_rstrip. apply forallb_strip. apply mdvd_pieces_no; assumption. }
+  { intros x Hx Ht. unfold mdvd_text. rewrite (mdvd_raw_plain ns H10 H13). unfold no_ch. apply forallb_rstrip. apply forallb_strip. apply mdvd_pieces_no; assumption. }
   pose proof (G 10 ltac:(discriminate) H10) as G10. pose proof (G 13 ltac:(discriminate) H13) as G13.
   unfold no_eol. apply forallb_forall. intros c Hc. unfold no_ch in G10, G13. rewrite forallb_forall in G10, G13.
   rewrite (G10 c Hc), (G13 c Hc). reflexivity.
@@ -635,10 +660,10 @@ Proof.
   rewrite IH, split_ch_snoc_sep. unfold trim_lines. rewrite map_app, filter_app. cbn. rewrite app_nil_r. reflexivity.
 Qed.
 
-Theorem mdvd_text_trim : forall ns, texts_no 124 ns = true ->
+Theorem mdvd_text_trim : forall ns, texts_no 124 ns = true -> texts_no 10 ns = true -> texts_no 13 ns = true ->
   trim_lines (split_ch 124 (mdvd_text ns)) = trim_lines (node_lines ns).
 Proof.
-  intros ns H. unfold mdvd_text. rewrite trim_lines_split_rstrip_pipes, trim_lines_split_strip.
+  intros ns H H10 H13. unfold mdvd_text. rewrite (mdvd_raw_plain ns H10 H13). rewrite trim_lines_split_rstrip_pipes, trim_lines_split_strip.
   unfold node_lines. rewrite <- (split_mdvd_pieces ns [] H eq_refl). reflexivity.
 Qed.
 
@@ -648,7 +673,8 @@ Theorem mdvd_doc_meets_oracle : forall caps, Forall mdvd_cap_ok caps ->
                ok_cues_strict (map (fun c => node_lines (snd c)) caps) cues = true.
 Proof.
   intros caps H Hp. rewrite (mdvd_doc_roundtrip caps H). eexists. split; [reflexivity|].
-  apply ok_cues_strict_map. intros c Hc. symmetry. apply mdvd_text_trim. apply Hp. exact Hc.
+  apply ok_cues_strict_map. intros c Hc. symmetry. rewrite Forall_forall in H. destruct (H c Hc) as (_ & H10 & H13).
+  apply mdvd_text_trim; [apply Hp; exact Hc|exact H10|exact H13].
 Qed.
 
 Example mdvd_cap_ok_example : Forall mdvd_cap_ok [(lit "{25}{50}", [NBreak; NText (lit " a{1}{2}"); NBreak; NText (lit "b ")])].
